@@ -14,10 +14,12 @@ TRUSTED_BASE = ["Spec/Nucleotide.lean: IUPAC code sets typed from the IUPAC-IUB 
                 "ASCII restriction: Go rune/byte behaviour on non-ASCII input is outside the model",
                 "the judge's predicates are proved to be the statement of the theorems: isExpansion_iff (all read + no repeat + right count "
                 "<=> duplicate-free and exactly the set of readings), judge_allDistinct_iff (merge sort + neighbours <=> Nodup), inDomain_iff",
-                "canEnumerate (at most 2*10^6 readings and 3*10^7 letters) is a parameter of the CHECK: below it the full expansion is demanded "
-                "(a refusal is a FAIL whatever the count - no threshold is taken from the code), above it a reply must be a refusal; "
-                "the harness does not call the code for a non-enumerable input with at most MaxInt32 readings (harnessCallsAbove, a safety "
-                "parameter placed at the code's present guard), so a guard moved within (2*10^6, MaxInt32] is seen only from above (N^15 R = 2^31 must be refused)"]
+                "canEnumerate (at most 2*10^6 readings and 5*10^7 letters) is a parameter of the CHECK: below it the full expansion is demanded "
+                "(a refusal is a FAIL whatever the count - no threshold is taken from the code); up to readings x (letters+1) <= 2.3*10^8 the code is "
+                "still called and count + a sample are judged (a refusal is a FAIL: N^11, 2*4^11, N^12 - a guard lowered to below 1.6*10^7 FAILs); "
+                "beyond that memory budget and up to MaxInt32 readings the harness does not call the code (harnessCallsAbove); "
+                "the guard's position is pinned from above by the extractor (Gen/IupacGuard: 2^31 = N^15 R and other products of 2s and 3s above "
+                "MaxInt32 are refused, N^10 is accepted; Props/C11.guard_probes_consistent decides that this agrees with the model's maxInt32)"]
 ASSUMPTIONS = ["inputs are ASCII",
                "the model (allVariants = some ... up to MaxInt32 readings) assumes memory for up to MaxInt32 x len runes; the real code dies "
                "of memory exhaustion long before, and nothing is observed between the check's enumeration cap and MaxInt32"]
@@ -38,7 +40,7 @@ def count_readings(w):
 def can_enumerate(w):
     """the same predicate as Driver/C11.lean `canEnumerate` and the harness op"""
     n = count_readings(w)
-    return n <= 2000000 and n * (len(w) + 1) <= 30000000
+    return n <= 2000000 and n * (len(w) + 1) <= 50000000
 
 def enumerable_or_refused(r, w):
     """never emit by accident an input the check cannot enumerate but the code would try to (up to terabytes):
@@ -138,8 +140,12 @@ def cases(seed, tier):
         while count_readings(w) <= MAXINT32:   # force it above MaxInt32 (never into the band below)
             w += r.choice("NBDHV")
         yield ["variants", randcase(r, w)]
-    # deliberately NOT enumerable yet below MaxInt32: the harness must not call the code (reply too-large, not judged)
-    for w in ["N" * 12, "N" * 15, "nB" * 7]:
+    # SAMPLED regime (too many readings to ship, few enough letters to build: the code is called, the count and a sample
+    # of the list are judged) - this is where a lowered overflow guard shows: 4^11 = 4 194 304, 2*4^11, thorough 4^12
+    for w in ["N" * 11, "nNnNnNnNnNnr"] + (["N" * 12, "bB" * 7] if tier == "thorough" else []):
+        yield ["variants", w]
+    # deliberately beyond the memory budget yet below MaxInt32: the harness must not call the code (reply too-large, not judged)
+    for w in ["N" * 13, "N" * 15, "nB" * 7]:
         yield ["variants", w]
     # out-of-domain probes (not judged; model drift is reported only as information)
     for w in ["U", "u", "ACGU", "X", "acgtz", "A-C", "AC GT", "1"]:
